@@ -6,6 +6,7 @@ namespace Chewing.Conv
 
 /-- what `find_best_phrase` guarantees about an edge it returns -/
 structure EdgeOK (d : Dict) (strat : Strategy) (c : Composition) (e : Edge) : Prop where
+  nonempty : slice c e.start e.stop ≠ []
   noBreak : hasBreakInside c e.start e.stop = false
   noConflict : selConflict c e.start e.stop = false
   kind : (∃ cp, e.phrase = .chr cp ∧ slice c e.start e.stop = [Sym.chr cp]) ∨
@@ -13,7 +14,10 @@ structure EdgeOK (d : Dict) (strat : Strategy) (c : Composition) (e : Edge) : Pr
       ((p ∈ d.lookup (sylPrefix (slice c e.start e.stop)) strat ∧
           phraseOk e.start e.stop p c.selections = .ok true) ∨
         (∃ x ∈ c.selections, e.start = x.start ∧ e.stop = x.stop ∧
-          p = { text := x.text, freq := 0, lastUsed := none })))
+          p = { text := x.text, freq := 0, lastUsed := none }) ∨
+        (∃ k, slice c e.start e.stop = [Sym.syl k] ∧ p = { text := spell k, freq := 0, lastUsed := none } ∧
+          pickBest c.selections e.start e.stop (d.lookup [k] strat) none = .ok none ∧
+          forcedSel c e.start e.stop = none)))
 
 theorem pickBest_some {sels : List Interval} {s e : Nat} {ps : List Phrase} {best : Option Phrase} {p : Phrase}
     (h : pickBest sels s e ps best = .ok (some p)) :
@@ -59,18 +63,29 @@ theorem forcedSel_some {c : Composition} {s e : Nat} {p : Phrase} (h : forcedSel
   simp only [Bool.and_eq_true, decide_eq_true_eq] at hp
   exact ⟨x, hm, hp.1, hp.2, rfl⟩
 
+theorem spelledSyl_some {l : List Sym} {p : Phrase} (h : spelledSyl l = some p) :
+    ∃ k, l = [Sym.syl k] ∧ p = { text := spell k, freq := 0, lastUsed := none } := by
+  unfold spelledSyl at h
+  split at h
+  · exact ⟨_, rfl, (Option.some.inj h).symm⟩
+  · cases h
+
 theorem findBestPhrase_ok {d : Dict} {strat : Strategy} {c : Composition} {s e : Nat} {ph : PPhrase}
     (h : findBestPhrase d strat c s e = .ok (some ph)) : EdgeOK d strat c ⟨s, e, ph⟩ := by
   unfold findBestPhrase at h
+  split at h
+  · cases h
+  rename_i hne
   split at h
   · cases h
   rename_i hb
   split at h
   · cases h
   rename_i hc
+  have hne' : slice c s e ≠ [] := by simpa using hne
   have hb' : hasBreakInside c s e = false := by simpa using hb
   have hc' : selConflict c s e = false := by simpa using hc
-  refine ⟨hb', hc', ?_⟩
+  refine ⟨hne', hb', hc', ?_⟩
   split at h
   · rename_i cp hs
     cases h
@@ -90,8 +105,18 @@ theorem findBestPhrase_ok {d : Dict} {strat : Strategy} {c : Composition} {s e :
     · rename_i hp
       have h := Outcome.ok.inj h
       rw [Option.map_eq_some_iff] at h
-      obtain ⟨p, hp, rfl⟩ := h
-      exact Or.inr ⟨p, rfl, hall, Or.inr (forcedSel_some hp)⟩
+      obtain ⟨p, hp', rfl⟩ := h
+      cases hf : forcedSel c s e with
+      | some q =>
+        rw [hf] at hp'
+        cases hp'
+        exact Or.inr ⟨_, rfl, hall, Or.inr (Or.inl (forcedSel_some hf))⟩
+      | none =>
+        rw [hf] at hp'
+        obtain ⟨k, hk, rfl⟩ := spelledSyl_some (by simpa using hp')
+        refine Or.inr ⟨_, rfl, hall, Or.inr (Or.inr ⟨k, hk, rfl, ?_, rfl⟩)⟩
+        rw [hk] at hp
+        exact hp
     · cases h
     · cases h
 
@@ -189,19 +214,99 @@ theorem slice_singleton_stop {c : Composition} {s e : Nat} {x : Sym} (h : slice 
 theorem slice_empty {c : Composition} {s : Nat} : slice c s s = [] := by
   simp [slice]
 
-/-- every edge is non-empty, provided the dictionary has no empty key and the selections are valid -/
-theorem EdgeOK.lt {d : Dict} {strat : Strategy} {c : Composition} {e : Edge} (h : EdgeOK d strat c e)
-    (hd : NoEmptyKey d) (hc : CompValid c) (hle : e.start ≤ e.stop) : e.start < e.stop := by
-  rcases h.kind with ⟨cp, _, hs⟩ | ⟨p, _, _, ⟨hl, _⟩ | ⟨x, hx, h1, h2, _⟩⟩
-  · exact (slice_singleton hs).1
-  · rcases Nat.lt_or_ge e.start e.stop with h | h
-    · exact h
-    · have : e.stop = e.start := by omega
-      rw [this, slice_empty] at hl
-      simp only [sylPrefix] at hl
-      rw [hd strat] at hl
-      cases hl
-  · have := (hc.sels x hx).nonempty
-    omega
+/-- every edge is non-empty: `find_best_phrase` answers `None` for an empty range whatever the
+    dictionary stores under the empty key (F39 repaired) -/
+theorem EdgeOK.lt {d : Dict} {strat : Strategy} {c : Composition} {e : Edge} (h : EdgeOK d strat c e) :
+    e.start < e.stop := by
+  rcases Nat.lt_or_ge e.start e.stop with hlt | hge
+  · exact hlt
+  · exfalso
+    apply h.nonempty
+    unfold slice
+    rw [show e.stop - e.start = 0 by omega]
+    rfl
+
+/-! ### a symbol that no selection covers -/
+
+theorem validSel_text_ne {c : Composition} {x : Interval} (h : ValidSel c x) : x.text ≠ [] := by
+  intro he
+  have := h.textLen
+  have := h.nonempty
+  rw [he] at *
+  simp at *
+  omega
+
+theorem pickBest_some_stays {sels : List Interval} {s e : Nat} {ps : List Phrase} {b : Phrase} {r : Option Phrase}
+    (h : pickBest sels s e ps (some b) = .ok r) : r.isSome = true := by
+  induction ps generalizing b with
+  | nil => simp only [pickBest] at h; cases Outcome.ok.inj h; rfl
+  | cons q qs ih =>
+    unfold pickBest at h
+    split at h
+    · simp only at h
+      split at h
+      · exact ih h
+      · exact ih h
+    · exact ih h
+    · cases h
+    · cases h
+
+theorem forcedSel_isSome {c : Composition} {x : Interval} (hx : x ∈ c.selections) :
+    (forcedSel c x.start x.stop).isSome = true := by
+  unfold forcedSel
+  rw [Option.isSome_map, List.find?_isSome]
+  exact ⟨x, hx, by simp⟩
+
+theorem selConflict_false {c : Composition} {s e : Nat} (h : selConflict c s e = false) :
+    ∀ x ∈ c.selections, x.intersectRange s e = true → s ≤ x.start ∧ x.stop ≤ e := by
+  intro x hx hi
+  unfold selConflict at h
+  have := List.any_eq_false.mp h x hx
+  simp only [hi, Bool.true_and, Bool.not_eq_true', Bool.not_eq_false] at this
+  exact isContainedBy_eq_true.mp (by simpa using this)
+
+theorem phraseOk_of_free {c : Composition} (hc : CompValid c) {i : Nat} (hf : Free c i) (p : Phrase) :
+    ∀ sels, (∀ x ∈ sels, x ∈ c.selections) → phraseOk i (i + 1) p sels = .ok true := by
+  intro sels
+  induction sels with
+  | nil => intro _; rfl
+  | cons y ys ih =>
+    intro hsub
+    have hy := hsub y (List.mem_cons_self ..)
+    have hv := hc.sels y hy
+    have hni := List.any_eq_false.mp hf y hy
+    simp only [Interval.intersectRange, decide_eq_true_eq] at hni
+    unfold phraseOk
+    rw [if_neg (validSel_text_ne hv), if_neg (by have := hv.nonempty; omega)]
+    exact ih (fun x hx => hsub x (List.mem_cons_of_mem _ hx))
+
+/-- when the fallback of `find_best_phrase` fires on a valid composition the syllable has no word at all
+    under the strategy and no selection covers it -/
+theorem fallback_facts {d : Dict} {strat : Strategy} {c : Composition} (hc : CompValid c) {i k : Nat}
+    (hconf : selConflict c i (i + 1) = false) (hf : forcedSel c i (i + 1) = none)
+    (hp : pickBest c.selections i (i + 1) (d.lookup [k] strat) none = .ok none) :
+    d.lookup [k] strat = [] ∧ Free c i := by
+  have hfree : Free c i := by
+    unfold Free
+    rw [List.any_eq_false]
+    intro x hx hi
+    have hi : x.intersectRange i (i + 1) = true := by simpa using hi
+    have hcont := selConflict_false hconf x hx hi
+    have hv := hc.sels x hx
+    have h1 : x.start = i := by have := hv.nonempty; omega
+    have h2 : x.stop = i + 1 := by have := hv.nonempty; omega
+    have := forcedSel_isSome (c := c) hx
+    rw [h1, h2, hf] at this
+    cases this
+  refine ⟨?_, hfree⟩
+  cases hl : d.lookup [k] strat with
+  | nil => rfl
+  | cons p ps =>
+    rw [hl] at hp
+    unfold pickBest at hp
+    rw [phraseOk_of_free hc hfree p _ (fun _ h => h)] at hp
+    simp only [if_true] at hp
+    have := pickBest_some_stays hp
+    cases this
 
 end Chewing.Conv
